@@ -99,6 +99,19 @@ templ H8(a *rt.A) {
 	<p>{ a.E("e1") }</p>
 }
 
+templ H9(a *rt.A) {
+	<header>{ a.S("s1") }</header>
+	@bytesW(a, "c1", 40)
+	<main>{ a.E("e1") }</main>
+	@bytesW(a, "c2", 4096)
+	<aside>x</aside>
+	@layout() {
+		<b>in</b>
+		@bytesW(a, "c3", 5000)
+	}
+	<footer>{ a.S("s2") }</footer>
+}
+
 templ H7(a *rt.A) {
 	switch a.K("k1") {
 		case "k0":
@@ -146,6 +159,23 @@ func F0(a *rt.A) templ.Component {
 	})
 }
 
+// bytesW is a hand-written component that hands its whole output to the writer as ONE []byte Write of n bytes
+// (io.Copy, a template engine bridge, pre-rendered bytes), not through WriteString.
+func bytesW(a *rt.A, id string, n int) templ.Component {
+	return templ.ComponentFunc(func(ctx context.Context, w io.Writer) error {
+		if err := a.Comp(id); err != nil {
+			return err
+		}
+		b := make([]byte, n)
+		for i := range b {
+			b[i] = "0123456789"[i%10]
+		}
+		copy(b, "<bytes-"+id+">")
+		_, err := w.Write(b)
+		return err
+	})
+}
+
 func leafC(a *rt.A, id string) templ.Component {
 	return templ.ComponentFunc(func(ctx context.Context, w io.Writer) error {
 		a.Comp(id)
@@ -172,6 +202,7 @@ func main() {
 		{name: "H3", exprs: []string{"e1"}, comps: []string{"c2"}}, {name: "H4", exprs: []string{"e1"}, comps: []string{"c1"}}, {name: "F0", flush: true},
 		{name: "H5", exprs: []string{"e1"}, comps: []string{"c1"}}, {name: "H6", exprs: []string{"e1"}, comps: []string{"c1"}},
 		{name: "H7", exprs: []string{"e1", "e2", "e3"}, comps: []string{"c1", "c2"}}, {name: "H8", exprs: []string{"e1"}},
+		{name: "H9", exprs: []string{"e1"}, comps: []string{"c1", "c2", "c3"}},
 	}
 	srcLines := strings.Split(c10Templ, "\n")
 	for i := range hand {
